@@ -12,6 +12,7 @@
 //!   snap <file>                   (writes the current image to <file>; output = live logical dump)
 use crate::names::{dec, enc};
 use crate::timeconv::mk_time;
+use crate::backend::{Backend, Chunking, ImageSource};
 use crate::util::*;
 use cfb::{CompoundFile, Entry, OpenOptions, Stream, Version};
 use std::collections::BTreeMap;
@@ -49,11 +50,20 @@ fn render_list<I: Iterator<Item = Entry>>(it: I) -> String {
 // ------------------------------------------------------------------------------------------
 // the real side
 
+#[derive(Clone, Debug, PartialEq)]
+pub enum BackendKind {
+    Mem,
+    File(String),
+    Chunky(Chunking),
+}
+
 pub struct Real {
-    pub comp: Option<CompoundFile<SharedFile>>,
-    pub file: Option<SharedFile>,
-    pub handles: BTreeMap<u32, Stream<SharedFile>>,
+    pub comp: Option<CompoundFile<Backend>>,
+    pub file: Option<ImageSource>,
+    pub handles: BTreeMap<u32, Stream<Backend>>,
     pub maxbuf: Option<usize>,
+    pub backend: BackendKind,
+    pub force_version: Option<u8>,
     pub clock_violation: Option<String>,
 }
 
@@ -73,7 +83,7 @@ fn ok_unit(r: std::io::Result<()>) -> String {
 
 impl Real {
     pub fn new() -> Real {
-        Real { comp: None, file: None, handles: BTreeMap::new(), maxbuf: None, clock_violation: None }
+        Real { comp: None, file: None, handles: BTreeMap::new(), maxbuf: None, clock_violation: None, backend: BackendKind::Mem, force_version: None }
     }
 
     pub fn image(&self) -> Vec<u8> {
@@ -94,9 +104,20 @@ impl Real {
             ["create", v] => {
                 self.handles.clear();
                 self.comp = None;
-                let version = if *v == "3" { Version::V3 } else { Version::V4 };
-                let file = SharedFile::new(Vec::new());
-                self.file = Some(file.clone());
+                let version = match self.force_version {
+                    Some(3) => Version::V3,
+                    Some(_) => Version::V4,
+                    None => if *v == "3" { Version::V3 } else { Version::V4 },
+                };
+                let file = match &self.backend {
+                    BackendKind::Mem => Backend::Mem(SharedFile::new(Vec::new())),
+                    BackendKind::Chunky(mode) => Backend::Chunky { inner: SharedFile::new(Vec::new()), mode: *mode, rng: Rng::new(7), toggle: false },
+                    BackendKind::File(path) => {
+                        let f = std::fs::OpenOptions::new().read(true).write(true).create(true).truncate(true).open(path).unwrap();
+                        Backend::File(f, path.clone())
+                    }
+                };
+                self.file = Some(file.image_source());
                 match CompoundFile::create_with_version(version, file) {
                     Ok(c) => {
                         // reopen through OpenOptions when a buffer size is configured
@@ -115,9 +136,8 @@ impl Real {
                 self.handles.clear();
                 let comp = self.comp.take().unwrap();
                 // no flush: take the bytes as into_inner leaves them
-                let file = comp.into_inner();
-                let mut file2 = file.clone();
-                file2.seek(SeekFrom::Start(0)).unwrap();
+                let mut file = comp.into_inner();
+                file.seek(SeekFrom::Start(0)).unwrap();
                 let mut o = OpenOptions::new();
                 if let Some(m) = self.maxbuf {
                     o = o.max_buffer_size(m);
@@ -125,15 +145,19 @@ impl Real {
                 if *mode == "strict" {
                     o = o.strict();
                 }
-                match o.open_with(file2) {
+                // `open_with` consumes the backend; on refusal reopen the same bytes permissively so
+                // that the history can continue
+                let src = self.file.clone().unwrap();
+                match o.open_with(file) {
                     Ok(c) => {
                         self.comp = Some(c);
                         "ok".into()
                     }
                     Err(e) => {
-                        // keep going on a permissive open so that the history can continue
-                        let f3 = file.clone();
-                        self.comp = OpenOptions::new().open_with(f3).ok();
+                        let bytes = src.snapshot();
+                        let again = SharedFile::new(bytes);
+                        self.file = Some(ImageSource::Mem(again.clone()));
+                        self.comp = OpenOptions::new().open_with(Backend::Mem(again)).ok();
                         format!("err {}", err_kind(&e))
                     }
                 }
